@@ -36,6 +36,7 @@ void Simulate8008::reset()
 {
   memset(reg, 0, sizeof(reg));
   memset(&flags, 0, sizeof(flags));
+  memset(stack, 0, sizeof(stack));
 
   pc = org;
   sp = 0;
